@@ -15,6 +15,7 @@ func init() { Registry["C09"] = c09 }
 
 func c09(r *Report) {
 	defer c09Seed5(r)
+	defer c09Seed6(r)
 	p := r.P
 	const dn = "vdr/didnuts"
 	r.Explanation = "Static decision that a did:nuts document version from the network becomes resolvable only through the authorisation and well-formedness checks: (1) the did:nuts store is written only by the two ambassador handlers and by the manager's own signed updates; (2) creation: Add only via an embedded signing key, its thumbprint and DID == thumbprint; (3) update: Add only via controller resolution, resolution of the signing key as of the referenced transactions, and a thumbprint match in a key list that is built only from the capabilityInvocation relationships of the resolved controllers; the controller list itself is built only from ResolveControllers results; (4) both handlers are reached only through transaction integrity, JSON decoding and the network document validator, whose validator table contains the W3C, verification-method and service validators; the inner validators gate their success on fragment, uniqueness, DID prefix, thumbprint (computed from key material) and one-service-per-type."
